@@ -198,6 +198,10 @@ type c14Op struct {
 	run func(adapter string, cl adapt.Client, item val.Item) (root interface{}, expect val.Item, ok bool)
 }
 
+// c14Again (reads only, by operation name): the SAME request once more on the same client, with no write in between;
+// what it returns is what it returned the first time, whatever the caller did to the first result
+var c14Again = map[string]func(adapter string, cl adapt.Client) interface{}{}
+
 // key flavours: the poked structures include the KEY attributes, whose Go representation differs by type
 // (S and N are immutable strings behind pointers / members, B is a byte slice the library has to copy)
 type c14Flavour struct {
@@ -660,6 +664,32 @@ func c14Ops() []c14Op {
 			return o.run(ad, cl, it)
 		}})
 	}
+	// a Query THROUGH AN INDEX (the key flavour that has a global index over "gsik"), and the same request repeated
+	// after the caller edited the first result: a dashboard that polls one query gets fresh structures every time
+	indexQuery := func(ad string, cl adapt.Client) interface{} {
+		if ad == "v1" {
+			out, err := cl.Raw().(*v1client.Client).Query(&v1ddb.QueryInput{TableName: aws.String("tbl14"), IndexName: aws.String("gsi1"), KeyConditionExpression: aws.String("gsik = :g"), ExpressionAttributeValues: adapt.ItemToV1(val.Item{":g": val.Str("ix")})})
+			if err != nil || len(out.Items) == 0 {
+				return nil
+			}
+			return out.Items
+		}
+		out, err := cl.Raw().(*v2client.Client).Query(ctx, &v2ddb.QueryInput{TableName: v2aws.String("tbl14"), IndexName: v2aws.String("gsi1"), KeyConditionExpression: v2aws.String("gsik = :g"), ExpressionAttributeValues: adapt.ItemToV2(val.Item{":g": val.Str("ix")})})
+		if err != nil || len(out.Items) == 0 {
+			return nil
+		}
+		return out.Items
+	}
+	c14Again["output/Query(index)"] = indexQuery
+	ops = append(ops, c14Op{"output/Query(index)", func(ad string, cl adapt.Client, item val.Item) (interface{}, val.Item, bool) {
+		it := withKey(item)
+		it["gsik"] = val.Str("ix")
+		if !put(cl, it) {
+			return nil, nil, false
+		}
+		root := indexQuery(ad, cl)
+		return root, it, root != nil
+	}})
 	return ops
 }
 
@@ -712,6 +742,10 @@ func (p *c14) pokeAll(x *res, adapter string, op c14Op, item val.Item, ctx *runn
 	}
 	var locs0 []pokeLoc
 	walkLocs(reflect.ValueOf(root0), "", &locs0, 0)
+	pristine := ""
+	if c14Again[op.name] != nil {
+		pristine = normalizeAny(root0)
+	}
 	for li := range locs0 {
 		cl, _, _ := freshClient(adapter, spec)
 		root, expect, ok := op.run(adapter, cl, item)
@@ -749,6 +783,13 @@ func (p *c14) pokeAll(x *res, adapter string, op c14Op, item val.Item, ctx *runn
 			}()
 			got, problem = readBack(cl)
 		}()
+		if again := c14Again[op.name]; again != nil && problem == "" {
+			if second := again(adapter, cl); second == nil || normalizeAny(second) != pristine {
+				x.viol("output-shared", adapter+"/"+op.name+"/"+lastKind(loc.path)+"/same-request-again", fmt.Sprintf("[%s] after %s, changing %s of the returned structure changed what the SAME request returns when it is sent again (no write in between): %s, the first answer was %s", adapter, op.name, loc.path, normalizeAny(second), pristine), wit)
+				continue
+			}
+			x.r.Counters["same_request_repeated_after_a_poke"]++
+		}
 		quirk := modelQuirkNames(got, expect)
 		if problem == "" && (val.ItemsEqual(got, expect) || len(quirk) > 0) {
 			continue
